@@ -16,3 +16,44 @@ Print Assumptions C04_cursor_offsets_agree.
 Theorem C04_cursor_rejects_iff : stmt_cursor_rejects_iff.
 Proof. exact cursor_rejects_iff. Qed.
 Print Assumptions C04_cursor_rejects_iff.
+
+From Sbepp Require Import Cursor CursorSpec CursorProofs.
+
+(* every wrapper at the required position behaves like the random-access
+   accessor (same address) and leaves the cursor at the documented position *)
+Theorem C04_field_at_required_position : stmt_cur_field_at_required.
+Proof. exact cur_field_at_required. Qed.
+Print Assumptions C04_field_at_required_position.
+
+Theorem C04_field_init_wrappers : stmt_cur_field_init.
+Proof. exact cur_field_init. Qed.
+Print Assumptions C04_field_init_wrappers.
+
+Theorem C04_group_wrappers_equiv : stmt_cur_group_equiv.
+Proof. exact cur_group_equiv. Qed.
+Print Assumptions C04_group_wrappers_equiv.
+
+(* misuse is reported through the assertion handler instead of silently
+   reading other bytes: fields, and groups / data that are not the first
+   variable-length member *)
+Theorem C04_misplaced_field_reported : stmt_cur_field_misplaced_reported.
+Proof. exact cur_field_misplaced_reported. Qed.
+Print Assumptions C04_misplaced_field_reported.
+
+Theorem C04_misplaced_group_reported : stmt_cur_group_misplaced_reported.
+Proof. exact cur_group_misplaced_reported. Qed.
+Print Assumptions C04_misplaced_group_reported.
+
+Theorem C04_misplaced_data_reported : stmt_cur_data_misplaced_reported.
+Proof. exact cur_data_misplaced_reported. Qed.
+Print Assumptions C04_misplaced_data_reported.
+
+(* a complete cursor traversal (fields, cursor_range over every group, nested
+   entries, data) of the image of ANY well-formed value tree, with arbitrary
+   wire block lengths, visits every member at its random-access address and
+   leaves the cursor exactly at the end of the message.  Side condition: no
+   non-empty flat group has wire blockLength 0 (the model bounds the entry loop
+   by the buffer length; the library itself has no such bound). *)
+Theorem C04_complete_traversal_ends_at_message_end : stmt_trav_message_enc''.
+Proof. exact trav_message_enc''. Qed.
+Print Assumptions C04_complete_traversal_ends_at_message_end.
